@@ -1,10 +1,14 @@
 (** C08 - network surgery keeps the network consistent and means what it says.
     Property theorems only (proofs: Qib.TN.TNWF, TNMerge, TNConsistent, TNProofs, TNCounts,
-    TNSem).  The model (Qib.TN.TNModel) is a hand port of symbolic_network.py WITH the repairs
+    TNSem; value of a merge: TNPres, TNMergeValue).  ALL clauses of the property have a theorem:
+    invariant (2,3), counts (4), fresh ids (5), values of rename/transpose (6) and of merge (7:
+    contraction over the joined axes for ALL accepted merges - colliding ids, shared data
+    references, shared open bonds, joins that reuse an axis - plus the numpy.tensordot form for
+    joins that use each axis once).  The model (Qib.TN.TNModel) is a hand port of symbolic_network.py WITH the repairs
     (merge: every deleted open axis once; is_consistent: exact leg count; transpose: permutation
     test; merge: dimension test; rename_tensor: refuses the virtual tensor) and is tied to /repo
     by the exact correspondence run of checks/C08.py on every run. *)
-From Qib Require Import TN.TNSem TN.TNConsistentConv TN.TNGenBase Base.Inst.
+From Qib Require Import TN.TNSem TN.TNMergeValue TN.TNConsistentConv TN.TNGenBase Base.Inst.
 From Run Require Import GenTN.
 Local Open Scope Z_scope.
 
@@ -215,21 +219,80 @@ Theorem C08_transpose_permutes_value :
 Proof. intros. eapply transpose_value; eauto. Qed.
 Print Assumptions C08_transpose_permutes_value.
 
-(* 7. merge = contraction over the joined axes  (NOT proved; full statement, for joins that use
-   every open axis at most once, joins = [(a_1,b_1);...;(a_m,b_m)]):
-     forall n o joins ordT ordB n' data x, WF n -> WF o ->
-       merge n o joins ordT ordB = Some n' -> length x = (no1 - m) + (no2 - m) ->
-       defining_sum n' data x =
-         sum over j_1..j_m (j_r < dimension of axis a_r) of
-           defining_sum n data (x1 x j) * defining_sum o data (x2 x j)
-     where x1 puts j_r at position a_r and the first no1-m entries of x at the other positions
-     (in order), x2 puts j_r at position b_r and the remaining entries of x at the others.
-   For joins that reuse an axis all joined axes of one connected group carry one summed index.
-   What IS proved about merge: the invariant, the counts, the fresh ids (theorems 2,4,5).
-   The value semantics of merge is checked on every merge of the correspondence run against an
-   independent numpy reference (checks/C08.py: ref_merge_value) and, exactly, against this
-   model's defining_sum of the merged network. *)
+(** 7. merge = contraction over the joined axes, for EVERY accepted merge of two consistent
+    networks (any id collisions, shared data references, open bonds with several open legs, joins
+    that reuse an axis, any iteration order of the sets of shared ids).
+    Let no1/no2 be the numbers of open axes of n/o and number the open axes of o after those of n
+    (axis b of o = position no1+b).  [joined_axes] are the positions that occur in some join,
+    [kept_axes] the others, both ascending.  Then
+      (i)  the open axes of the result are the kept ones: those of n in order, then those of o;
+      (ii) the value of the result at the multi-index y of the kept axes is
+              sum over one index e(p) < dim(p) for every joined position p  of
+                 prod_{(a,b) in joins} [e(a) = e(no1+b)]  *  value_n(e on 0..no1-1)  *  value_o(e on no1..no1+no2-1)
+           where e reads y on the kept positions.
+    The Kronecker deltas identify the two axes of each join, so a position used by several joins
+    is identified with all its partners (one free summed index per connected group): this IS the
+    contraction of the two values over the joined axes; for joins that use each axis at most
+    once it is numpy.tensordot (7'). *)
+Theorem C08_merge_is_contraction :
+  forall (K : Scalar) (L : ScalarLaws K) n o joins ordT ordB n' (data : Z -> list nat -> K) y,
+    WF n -> WF o -> merge n o joins ordT ordB = Some n' ->
+    let no1 := length (vshape n) in
+    let no2 := length (vshape o) in
+    let Sh := (vshape n ++ vshape o)%list in
+    let del := joined_axes no1 joins (no1 + no2) in
+    let keep := kept_axes no1 joins (no1 + no2) in
+    vshape n' = map (fun i => nth i Sh O) keep /\
+    (length y = length keep ->
+     defining_sum n' data y
+     = ksum Nat.eqb (map (fun d => (d, nth d Sh O)) del)
+         (fun e => smul (lprod (map (fun j => delta (e (fst j)) (e (no1 + snd j)%nat)) joins))
+                        (smul (defining_sum n data (map e (seq 0 no1))) (defining_sum o data (map e (seq no1 no2)))))
+         (env_of keep y)).
+Proof. intros K L n o joins ordT ordB n' data y. exact (merge_value n o joins ordT ordB n' data y). Qed.
+Print Assumptions C08_merge_is_contraction.
 
+(** 7'. joins that use every open axis at most once (Circuit.as_tensornet, the simulators):
+    numpy.tensordot.  One summed index j(r) per join r = (a_r, b_r); the first operand is read at
+    j(r) on axis a_r and at y on its kept axes, the second at j(r) on axis b_r and at the rest of
+    y on its kept axes ([dot_idx1], [dot_idx2]). *)
+Theorem C08_merge_is_contraction_injective_joins :
+  forall (K : Scalar) (L : ScalarLaws K) n o joins ordT ordB n' (data : Z -> list nat -> K) y,
+    WF n -> WF o -> merge n o joins ordT ordB = Some n' ->
+    NoDup (map fst joins) -> NoDup (map snd joins) ->
+    let no1 := length (vshape n) in
+    let no2 := length (vshape o) in
+    let keep := kept_axes no1 joins (no1 + no2) in
+    length y = length keep ->
+    defining_sum n' data y
+    = ksum Nat.eqb (map (fun r => (r, nth (nth r (map fst joins) O) (vshape n) O)) (seq 0 (length joins)))
+        (fun j => smul (defining_sum n data (dot_idx1 no1 joins (env_of keep y) j))
+                       (defining_sum o data (dot_idx2 no1 no2 joins (env_of keep y) j)))
+        (fun _ => O).
+Proof. intros K L n o joins ordT ordB n' data y. exact (merge_value_injective_joins n o joins ordT ordB n' data y). Qed.
+Print Assumptions C08_merge_is_contraction_injective_joins.
+
+(** 7''. the data dictionaries (TensorNetwork.merge): the dictionary of the result is the union of
+    the two - a clash with different entries is refused -, so it agrees with the first on the
+    references of the first network's tensors and with the second on those of the second
+    ([data_agree]); the value of the result under the union is the contraction of the value of n
+    under ITS dictionary with the value of o under ITS dictionary *)
+Theorem C08_merge_is_contraction_with_data_union :
+  forall (K : Scalar) (L : ScalarLaws K) n o joins ordT ordB n' (d1 d2 d' : Z -> list nat -> K) y,
+    WF n -> WF o -> merge n o joins ordT ordB = Some n' -> data_agree n d' d1 -> data_agree o d' d2 ->
+    let no1 := length (vshape n) in
+    let no2 := length (vshape o) in
+    let Sh := (vshape n ++ vshape o)%list in
+    let del := joined_axes no1 joins (no1 + no2) in
+    let keep := kept_axes no1 joins (no1 + no2) in
+    length y = length keep ->
+    defining_sum n' d' y
+    = ksum Nat.eqb (map (fun d => (d, nth d Sh O)) del)
+        (fun e => smul (lprod (map (fun j => delta (e (fst j)) (e (no1 + snd j)%nat)) joins))
+                       (smul (defining_sum n d1 (map e (seq 0 no1))) (defining_sum o d2 (map e (seq no1 no2)))))
+        (env_of keep y).
+Proof. intros K L n o joins ordT ordB n' d1 d2 d' y. exact (merge_value_data n o joins ordT ordB n' d1 d2 d' y). Qed.
+Print Assumptions C08_merge_is_contraction_with_data_union.
 
 (* ================================================================== the source, regenerated *)
 (** [Run.GenTN] is regenerated on every run by gen/tn.py from
@@ -421,3 +484,23 @@ Example C08_example :
              wf_b n' = true /\ is_consistent n' = true /\
              num_tensors n' = Some 4%nat /\ num_bonds n' = 5%nat /\ num_open_axes n' = Some 3%nat.
 Proof. split; [vm_compute; reflexivity|]. eexists. split; [vm_compute; reflexivity|]. vm_compute. repeat split. Qed.
+
+(** theorem 7 on a concrete instance: ex_net merged with itself, axis 0 of the first joined with
+    axes 0 AND 1 of the second (which share an open bond with each other); both sides of the
+    equation evaluated over the Gaussian integers at every multi-index of the three kept axes *)
+Definition ex_data : Z -> list nat -> ZI :=
+  fun r idx => (Z.of_nat (1 + length idx + 2 * nth 0 idx O + 3 * nth 1 idx O), r).
+Example C08_example_merge_value :
+  match merge ex_net ex_net [(0, 0); (0, 1)]%nat [3; -1; -4]%Z [0; 1; 5]%Z with
+  | None => False
+  | Some n' =>
+      let Sh := [2; 2; 3; 2; 2; 3]%nat in
+      let rhs y := ksum (K:=ZI) Nat.eqb (map (fun d => (d, nth d Sh O)) (joined_axes 3 [(0, 0); (0, 1)]%nat 6))
+                     (fun e => smul (lprod (map (fun j => delta (e (fst j)) (e (3 + snd j)%nat)) [(0, 0); (0, 1)]%nat))
+                                    (smul (defining_sum ex_net ex_data (map e (seq 0 3))) (defining_sum ex_net ex_data (map e (seq 3 3)))))
+                     (env_of (kept_axes 3 [(0, 0); (0, 1)]%nat 6) y) in
+      forallb (fun y => zi_eqb (defining_sum n' ex_data y) (rhs y))
+              (flat_map (fun a => flat_map (fun b => map (fun c => [a; b; c]) (seq 0 3)) (seq 0 3)) (seq 0 2)) = true /\
+      zi_eqb (defining_sum n' ex_data [0; 0; 0]%nat) (0%Z, 0%Z) = false
+  end.
+Proof. vm_compute. split; reflexivity. Qed.
